@@ -40,7 +40,7 @@ PROFILES = {
     'copies':    dict(BASE, copies=40, pIssue=0, pGuardCancel=0, pGuardIssue=0, maxBatch=3, wReset=1, wExitEnter=1, wImmediate=3),
     'c15-core':  dict(BASE, kinds=0x4f, pGuardIssue=0, pGuardCancel=80, pIssue=40, maxBatch=3, pendq=0, wReset=1, wExitEnter=1, wQuery=1, pConsume=40, wfEvery=0),
     'c15-utility': dict(BASE, kinds=0x7f, pGuardIssue=0, pGuardCancel=80, pIssue=40, maxBatch=3, pendq=0, wReset=1, wExitEnter=1, wQuery=1, pConsume=40, wfEvery=0),
-    'payload':   dict(BASE, pGuardCancel=60, pGuardIssue=100, pIssue=80, maxBatch=4),
+    'payload':   dict(BASE, pGuardCancel=60, pGuardIssue=100, pIssue=80, maxBatch=4, pNoPayload=200),
 }
 
 # property -> engine configuration
@@ -171,6 +171,9 @@ def shape_engine(prop, tier, seed, keep=False):
     joindiff = vlib.join_differs()
     if joindiff and 'clang-dev' not in flavours: flavours.append('clang-dev')
     shapeset = shp.shape_set(seed, T['n_random'])
+    if prop == 'C14':
+        # payload types: int, 24-byte POD with odd tail, over-aligned 64-byte struct, 1-byte enum
+        for i, sj in enumerate(shapeset): sj['cfg']['payload'] = ['int', 'pod24', 'big64', 'tiny'][i % 4]
     t0 = time.time()
     wanted = set()
     for profile in conf['profiles']:
